@@ -1551,9 +1551,13 @@ class Crystal(object):
         Gmin = min(np.dot(G, G) for G in self.BZG)
         for k in kptfull:
             if np.dot(k, k) >= Gmin:
-                for G in self.BZG:
-                    if np.dot(k, G) > np.dot(G, G):
-                        k -= 2. * G
+                moved = True
+                while moved:  # one pass over the facets is not always enough
+                    moved = False
+                    for G in self.BZG:
+                        if np.dot(k, G) > np.dot(G, G) * (1 + 1e-12):
+                            k -= 2. * G
+                            moved = True
         return kptfull
 
     def reducekptmesh(self, kptfull, threshold=None):
